@@ -127,7 +127,7 @@ class Registry:
                 if name == "ghost":
                     g = {}
                     for kwd in call.keywords:
-                        g[kwd.arg] = ast.literal_eval(kwd.value) if kwd.arg == "after" else kwd.value
+                        g[kwd.arg] = ast.literal_eval(kwd.value) if kwd.arg in ("after", "before") else kwd.value
                     if not hasattr(c, "ghosts"):
                         c.ghosts = []
                     c.ghosts.append(g)
